@@ -19,7 +19,8 @@ CODEC = {'none': 'utf-8', 'utf-8': 'utf-8', 'latin-1': 'latin-1', 'cp1252': 'cp1
 COOKIE_LINE = {'utf-8': '# -*- coding: utf-8 -*-', 'latin-1': '# -*- coding: latin-1 -*-', 'cp1252': '# vim: set fileencoding=cp1252 :',
                'iso-8859-15': '#coding=iso-8859-15', 'ascii': '# coding: ascii'}
 SHEBANG = {'plain': '#!/usr/bin/env python', 'with-args': '#!/usr/bin/python -O -u  ', 'non-ascii': u'#!/opt/pyth\u00f6n/bin/python',
-           'hash-only': '# !/usr/bin/python', 'space-before': ' #!/usr/bin/python'}
+           'hash-only': '# !/usr/bin/python', 'space-before': ' #!/usr/bin/python',
+           'with-formfeed': '#!/usr/bin/env -S python\x0c-O', 'with-x85': u'#!/usr/bin/python \x85 x', 'with-linesep': u'#!/usr/bin/python \u2028x \x1c y'}
 
 # body programs (LF, unicode); each must be encodable in the codecs it is used with
 BODIES = [
